@@ -1,36 +1,40 @@
 import AsynqModel.Lib.Batching
 import AsynqModel.Proofs.Batching7
+import AsynqModel.Proofs.Batching8
 /-!
 # C11  Batch lifecycle: pending to flushed or cancelled, once; no item left pending
 
 Theorems about the model `AsynqModel.Batching` for both batch kinds (harness subclass of BatchBase with scripted
-flush bodies; built-in DebugBatch), **every** list of flush scripts and **every** history of operations.
-`Reach scripts k s` below is spelled `s = finalState scripts (init k) ops` for an arbitrary `ops`.
+flush bodies; built-in DebugBatch), both settings of the debug option KEEP_DEPENDENCIES, **every** list of flush
+scripts and **every** history of operations - where every `add` may give the new item completion handlers
+(`spawn`: issue a new request; `link`: complete a pending sibling with a value or an error, which runs the
+sibling's handlers in turn).
+`Reach scripts k s` below is spelled `s = finalState scripts (init k keep) ops` for an arbitrary `ops`.
 -/
 namespace AsynqModel.Batching
 
 /-- **C11 as a whole**: for both kinds, all flush scripts and all histories, the observations of the model are
     accepted by the observer `spec` - the same Boolean function the check evaluates on the observations of the
     real implementation. -/
-theorem C11_spec_holds (k : Kind) (scripts : List Script) (ops : List Op) :
-    spec k (run scripts (init k) ops) = true := by
-  simp [spec, watchRun_ok scripts ops (init k) (good_init k)]
+theorem C11_spec_holds (k : Kind) (keep : Bool) (scripts : List Script) (ops : List Op) :
+    spec k (run scripts (init k keep) ops) keep = true := by
+  simp [spec, watchRun_ok scripts ops (init k keep) (good_init k keep)]
 
 /-- **no item left pending**: in every reachable snapshot the active batch exists and is pending, every item of a
     finished batch is complete, every item of a pending batch is listed in its `items`, and no flush body ran
     for a pending batch or more than once for any batch -/
-theorem C11_no_item_left_pending (k : Kind) (scripts : List Script) (ops : List Op) :
-    Good (finalState scripts (init k) ops) :=
-  good_final scripts ops (init k) (good_init k)
+theorem C11_no_item_left_pending (k : Kind) (keep : Bool) (scripts : List Script) (ops : List Op) :
+    Good (finalState scripts (init k keep) ops) :=
+  good_final scripts ops (init k keep) (good_init k keep)
 
 /-- **once**: from any reachable snapshot, any operation keeps the outcome of every finished batch (pending →
     flushed | cancelled happens once) and the flush body of every batch has run at most once -/
-theorem C11_once (k : Kind) (scripts : List Script) (ops : List Op) (op : Op) (b : Nat) :
-    let s := finalState scripts (init k) ops
+theorem C11_once (k : Kind) (keep : Bool) (scripts : List Script) (ops : List Op) (op : Op) (b : Nat) :
+    let s := finalState scripts (init k keep) ops
     s.runs b ≤ 1 ∧ (s.bout b = none → s.runs b = 0) ∧
       ∀ o, s.bout b = some o → (step scripts s op).1.bout b = some o := by
   intro s
-  have hg : Good s := C11_no_item_left_pending k scripts ops
+  have hg : Good s := C11_no_item_left_pending k keep scripts ops
   have ⟨_, _, _, hE, _⟩ := specStep_unpack (step_ok scripts s hg op)
   by_cases hb : b < s.batches.length
   · have ⟨_, r1, r2⟩ := hg.2.2.2 b hb
@@ -50,13 +54,13 @@ theorem observe_snd (scripts : List Script) (s : St) (op : Op) :
 /-- **flush is total**: `flush()` of a pending batch of a reachable snapshot returns normally whatever the flush
     body does (sets all / some / no items, sets item errors, raises Exception or BaseException, issues
     requests), leaves the batch finished, and (user subclass) has run the body exactly once -/
-theorem C11_flush_total (k : Kind) (scripts : List Script) (ops : List Op) (b : Nat) :
-    let s := finalState scripts (init k) ops
+theorem C11_flush_total (k : Kind) (keep : Bool) (scripts : List Script) (ops : List Op) (b : Nat) :
+    let s := finalState scripts (init k keep) ops
     b < s.batches.length → s.bout b = none →
       (step scripts s (.flush b)).2.1 = .unit ∧ ((step scripts s (.flush b)).1.bout b).isSome ∧
       (s.kind = .user → (step scripts s (.flush b)).1.runs b = 1) := by
   intro s hb hp
-  have hg : Good s := C11_no_item_left_pending k scripts ops
+  have hg : Good s := C11_no_item_left_pending k keep scripts ops
   have ⟨h1, _⟩ := specStep_unpack (step_ok scripts s hg (.flush b))
   rw [observe_snd] at h1
   have hnb : ¬ s.batches.length ≤ b := by omega
@@ -90,15 +94,15 @@ theorem C11_second_flush_error (scripts : List Script) (s : St) (b : Nat) (h : (
 /-- **cancel is total**: `cancel(error?)` of an existing batch never raises; on a finished batch it is a no-op
     (any state); on a pending batch of a reachable snapshot it finishes the batch with the given error (or
     BatchCancelledError) without running the flush body -/
-theorem C11_cancel_total (k : Kind) (scripts : List Script) (ops : List Op) (b : Nat) (x : Option Nat) :
-    let s := finalState scripts (init k) ops
+theorem C11_cancel_total (k : Kind) (keep : Bool) (scripts : List Script) (ops : List Op) (b : Nat) (x : Option Nat) :
+    let s := finalState scripts (init k keep) ops
     b < s.batches.length →
       (step scripts s (.cancel b x)).2.1 = .unit ∧
       ((s.bout b).isSome → step scripts s (.cancel b x) = (s, .unit, [])) ∧
       (s.bout b = none → (step scripts s (.cancel b x)).1.bout b = some (.err (errOfCancel x)) ∧
                          (step scripts s (.cancel b x)).1.runs b = 0) := by
   intro s hb
-  have hg : Good s := C11_no_item_left_pending k scripts ops
+  have hg : Good s := C11_no_item_left_pending k keep scripts ops
   have ⟨h1, _⟩ := specStep_unpack (step_ok scripts s hg (.cancel b x))
   rw [observe_snd] at h1
   have hnb : ¬ s.batches.length ≤ b := by omega
@@ -116,13 +120,14 @@ theorem C11_cancel_total (k : Kind) (scripts : List Script) (ops : List Op) (b :
 /-- **no add after finish**: constructing an item on a finished batch raises the constructor's AssertionError and
     changes nothing (any state); a request through the service in a reachable snapshot always succeeds, because
     the active batch is never a finished one -/
-theorem C11_no_add_after_finish (k : Kind) (scripts : List Script) (ops : List Op) (b p : Nat) (sp : Option Nat) :
-    let s := finalState scripts (init k) ops
+theorem C11_no_add_after_finish (k : Kind) (keep : Bool) (scripts : List Script) (ops : List Op) (b p : Nat) (sp : Option Nat)
+    (lk : Option Link) :
+    let s := finalState scripts (init k keep) ops
     ((s.bout b).isSome → step scripts s (.addTo b p) = (s, .raised .assertAdd, [])) ∧
-    step scripts s (.add p sp) = (s.pushItem s.active p sp, .created s.items.length,
+    step scripts s (.add p sp lk) = (s.pushItem s.active p sp lk, .created s.items.length,
                                   [.created s.items.length s.active none]) := by
   intro s
-  have hg : Good s := C11_no_item_left_pending k scripts ops
+  have hg : Good s := C11_no_item_left_pending k keep scripts ops
   refine ⟨fun h => ?_, ?_⟩
   · simp only [step]
     cases e : s.batches[b]? with
@@ -135,8 +140,8 @@ theorem C11_no_add_after_finish (k : Kind) (scripts : List Script) (ops : List O
     the announcement none of its items was pending; a leftover item (not set by a script statement) holds the
     batch's error, else the "not set" AssertionError (user subclass) resp. its `_result` (DebugBatch); and at
     most one batch is announced per operation -/
-theorem C11_items_before_announce (k : Kind) (scripts : List Script) (ops : List Op) (op : Op) :
-    let s := finalState scripts (init k) ops
+theorem C11_items_before_announce (k : Kind) (keep : Bool) (scripts : List Script) (ops : List Op) (op : Op) :
+    let s := finalState scripts (init k keep) ops
     let post := (step scripts s op).1
     let evs := (step scripts s op).2.2
     (∀ b pend act, .announce b pend act ∈ evs →
@@ -147,7 +152,7 @@ theorem C11_items_before_announce (k : Kind) (scripts : List Script) (ops : List
         itemRule post.kind o (post.bout (post.ibatch i)) (post.payload i) = true) ∧
     (evs.filter Ev.isAnnounce).length ≤ 1 := by
   intro s post evs
-  have hg : Good s := C11_no_item_left_pending k scripts ops
+  have hg : Good s := C11_no_item_left_pending k keep scripts ops
   have ⟨_, h2, h3, _, h5⟩ := specStep_unpack (step_ok scripts s hg op)
   rw [observe_snd] at h2 h3 h5
   refine ⟨fun b pend act hmem => ?_, fun i o hmem => ?_, h3⟩
@@ -186,14 +191,14 @@ theorem C11_items_before_announce (k : Kind) (scripts : List Script) (ops : List
 /-- **item.value() flushes**: asking an existing item of a reachable snapshot for its value leaves the item
     complete, returns / raises exactly its outcome, and - if the item was pending - its batch is finished
     afterwards (so the batch was flushed by the call) -/
-theorem C11_item_value_flushes (k : Kind) (scripts : List Script) (ops : List Op) (i : Nat) :
-    let s := finalState scripts (init k) ops
+theorem C11_item_value_flushes (k : Kind) (keep : Bool) (scripts : List Script) (ops : List Op) (i : Nat) :
+    let s := finalState scripts (init k keep) ops
     let post := (step scripts s (.itemValue i)).1
     i < s.items.length →
       (post.iout i).isSome ∧ (step scripts s (.itemValue i)).2.1 = readValue (post.iout i) ∧
       (s.iout i = none → (post.bout (post.ibatch i)).isSome) := by
   intro s post hi
-  have hg : Good s := C11_no_item_left_pending k scripts ops
+  have hg : Good s := C11_no_item_left_pending k keep scripts ops
   have ⟨h1, _⟩ := specStep_unpack (step_ok scripts s hg (.itemValue i))
   rw [observe_snd] at h1
   have hni : ¬ s.items.length ≤ i := by omega
@@ -216,8 +221,8 @@ theorem C11_item_value_flushes (k : Kind) (scripts : List Script) (ops : List Op
     body had not run before and the batch was pending); every request issued during a flush or from an item's
     completion callback joins a pending batch different from the one being finished - the active one; such a
     request never fails -/
-theorem C11_fresh_batch_during_flush (k : Kind) (scripts : List Script) (ops : List Op) (op : Op) :
-    let s := finalState scripts (init k) ops
+theorem C11_fresh_batch_during_flush (k : Kind) (keep : Bool) (scripts : List Script) (ops : List Op) (op : Op) :
+    let s := finalState scripts (init k keep) ops
     let post := (step scripts s op).1
     let evs := (step scripts s op).2.2
     (∀ b act, .body b act ∈ evs → act ≠ b ∧ act = post.active ∧ s.bout b = none ∧ s.runs b = 0) ∧
@@ -225,7 +230,7 @@ theorem C11_fresh_batch_during_flush (k : Kind) (scripts : List Script) (ops : L
         b ≠ src ∧ b = post.active ∧ post.bout b = none ∧ post.ibatch i = b ∧ s.items.length ≤ i) ∧
     (∀ src, .createFail src ∉ evs) := by
   intro s post evs
-  have hg : Good s := C11_no_item_left_pending k scripts ops
+  have hg : Good s := C11_no_item_left_pending k keep scripts ops
   have ⟨_, h2, _⟩ := specStep_unpack (step_ok scripts s hg op)
   rw [observe_snd] at h2
   refine ⟨fun b act hmem => ?_, fun i b src hmem => ?_, fun src hmem => ?_⟩
@@ -266,6 +271,44 @@ theorem C11_fresh_batch_during_flush (k : Kind) (scripts : List Script) (ops : L
   · have hc := h2 _ hmem
     simp [evClause] at hc
 
+/-- **an outcome set by the flush body or by a sibling's completion handler is kept**: whenever, during an operation
+    on a reachable snapshot, an item is completed by harness code (a script statement, or the `link` handler of a
+    sibling that the library - or anybody - has just completed), the item was pending before the operation and holds
+    exactly that outcome after it: the library neither completes it a second time (which would raise out of
+    `cancel()` / abort `_computed` and leave the remaining items pending) nor replaces what was set -/
+theorem C11_set_outcome_kept (k : Kind) (keep : Bool) (scripts : List Script) (ops : List Op) (op : Op) :
+    let s := finalState scripts (init k keep) ops
+    let post := (step scripts s op).1
+    let evs := (step scripts s op).2.2
+    ∀ i o, .item i o true ∈ evs → post.iout i = some o ∧ s.iout i = none ∧ i < post.items.length := by
+  intro s post evs i o hmem
+  have hg : Good s := C11_no_item_left_pending k keep scripts ops
+  have ⟨_, h2, _, _, _⟩ := specStep_unpack (step_ok scripts s hg op)
+  rw [observe_snd] at h2
+  have hc := h2 _ hmem
+  simp only [evClause] at hc
+  split at hc
+  · cases hc
+  · rename_i r1
+    split at hc
+    · cases hc
+    · rename_i r2
+      have r1' : post.iout i = some o := by simpa using r1
+      refine ⟨r1', by simpa using r2, ?_⟩
+      apply Classical.byContradiction
+      intro hlt
+      have : post.items[i]? = none := List.getElem?_eq_none_iff.mpr (Nat.le_of_not_lt hlt)
+      simp [St.iout, this] at r1'
+
+/-- **the nesting bound of the model is never reached**: `completeItem` follows a chain of `link` handlers through
+    structural recursion on a bound; the model passes the number of items.  For a pending item, every bound that is at
+    least the number of items gives the same result - a chain is never cut short by the bound, so the theorems above
+    speak about handler chains of every length. -/
+theorem completeItem_fuel_enough (f : Nat) (s : St) (i : Nat) (o : Outc) (bb : Bool) (hn : s.iout i = none)
+    (hf : s.items.length ≤ f) : completeItem f s i o bb = completeItem s.items.length s i o bb :=
+  completeItem_fuel_irrelevant f s.items.length s i o bb hn
+    (Nat.le_trans (linkedPending_le s) hf) (linkedPending_le s)
+
 /-! ## non-vacuity
 
 A concrete history on a user batch whose flush body sets item 0, issues a new request and then raises a
@@ -273,7 +316,7 @@ BaseException: the second item gets the flush error from `_computed`, item 1's c
 both requests join the fresh batch 1; then a second flush, a cancel and an add on the finished batch. -/
 def demoScripts : List Script := [[.setValue 0 1, .newItem 4, .raise 5]]
 def demoOps : List Op :=
-  [.add 1 none, .add 2 (some 9), .flush 0, .itemValue 1, .flush 0, .cancel 0 none, .addTo 0 3, .batchError 0]
+  [.add 1 none none, .add 2 (some 9) none, .flush 0, .itemValue 1, .flush 0, .cancel 0 none, .addTo 0 3, .batchError 0]
 
 example : spec .user (run demoScripts (init .user) demoOps) = true := by decide
 
@@ -287,16 +330,16 @@ example : ((run demoScripts (init .user) demoOps).map (·.res)) =
      .errIs (some (.user 5))] := by decide
 
 /-- DebugBatch: flush sets every item to its result; a cancelled batch gives its items the cancellation error -/
-example : ((run [] (init .debug) [.add 3 (some 7), .flush 0, .add 4 none, .cancel 1 none, .itemValue 2]).map (·.res)) =
+example : ((run [] (init .debug) [.add 3 (some 7) none, .flush 0, .add 4 none none, .cancel 1 none, .itemValue 2]).map (·.res)) =
     [.created 0, .unit, .created 2, .unit, .raised .cancelled] := by decide
 
 /-- the observer is not trivially true: it rejects a flush that announces the batch while item 0 is pending ... -/
 example : specClause .user
-    [⟨.add 1 none, .created 0, [.created 0 0 none],
-      { kind := .user, active := 0, batches := [⟨none, [0], 0⟩], items := [⟨0, 1, none, none⟩] }⟩,
+    [⟨.add 1 none none, .created 0, [.created 0 0 none],
+      { kind := .user, active := 0, batches := [⟨none, [0], 0⟩], items := [⟨0, 1, none, none, none⟩] }⟩,
      ⟨.flush 0, .unit, [.body 0 1, .announce 0 [0] 1],
       { kind := .user, active := 1, batches := [⟨some (.val 0), [], 1⟩, ⟨none, [], 0⟩],
-        items := [⟨0, 1, none, none⟩] }⟩] = "items-before-announce@flush" := by decide
+        items := [⟨0, 1, none, none, none⟩] }⟩] = "items-before-announce@flush" := by decide
 
 /-- ... a flush body that runs while its batch still holds the active slot ... -/
 example : specClause .user
@@ -311,5 +354,47 @@ example : specClause .user
      ⟨.flush 0, .unit, [],
       { kind := .user, active := 1, batches := [⟨some (.err .cancelled), [], 0⟩, ⟨none, [], 0⟩], items := [] }⟩]
     = "second-flush-error@flush" := by decide
+
+/-! ### completion handlers that complete a sibling (`link`)
+
+Three items, none set by anybody; item 0's handler completes item 1 with value 5; item 2's handler would complete
+item 0 (already complete by then).  `cancel()` completes item 0 with the cancellation error, the handler completes
+item 1, the loop of `_computed` skips item 1 and completes item 2; one announcement, nothing pending. -/
+def linkOps : List Op :=
+  [.add 1 none (some ⟨1, false, 5⟩), .add 2 none none, .add 3 none (some ⟨0, true, 2⟩)]
+
+example : ((run [] (init .user) (linkOps ++ [.cancel 0 none]))[3]?).map (·.evs) = some
+    [.item 0 (.err .cancelled) false, .item 1 (.val 5) true, .item 2 (.err .cancelled) false, .announce 0 [] 1] := by
+  decide
+
+example : spec .user (run [] (init .user) (linkOps ++ [.cancel 0 none, .itemValue 1, .flush 0])) = true := by decide
+
+/-- the same under `flush()` with a body that sets nothing, and under KEEP_DEPENDENCIES -/
+example : ((run [[]] (init .user true) (linkOps ++ [.flush 0]))[3]?).map (fun ob => (ob.evs, ob.post.bitems 0)) = some
+    ([.body 0 1, .item 0 (.err .notSet) false, .item 1 (.val 5) true, .item 2 (.err .notSet) false,
+      .announce 0 [] 1], [0, 1, 2]) := by decide
+
+/-- a chain of handlers: the flush body sets item 2, whose handler completes item 0, whose handler completes item 1 -/
+example : ((run [[.setValue 2 7]] (init .user)
+      [.add 1 none (some ⟨1, false, 5⟩), .add 2 none none, .add 3 none (some ⟨0, true, 2⟩), .flush 0])[3]?).map (·.evs) =
+    some [.body 0 1, .item 2 (.val 7) true, .item 0 (.err (.user 2)) true, .item 1 (.val 5) true, .announce 0 [] 1] := by
+  decide
+
+/-- DebugBatch: `_flush` sets item 0, the handler completes item 1, then `_flush` itself reaches item 1 and its
+    `set_value` raises FutureIsAlreadyComputed out of the body: the batch fails with that error, item 2 gets it -/
+example : ((run [] (init .debug) (linkOps ++ [.flush 0, .batchError 0]))).map (·.res) =
+    [.created 0, .created 1, .created 2, .unit, .errIs (some .already)] := by decide
+
+/-- the observer rejects what a `_computed` working on a stale snapshot of the unset items does: `cancel()` raises -/
+example : specClause .user
+    [⟨.add 1 none (some ⟨1, false, 5⟩), .created 0, [.created 0 0 none],
+      { kind := .user, active := 0, batches := [⟨none, [0], 0⟩], items := [⟨0, 1, none, some ⟨1, false, 5⟩, none⟩] }⟩,
+     ⟨.add 2 none none, .created 1, [.created 1 0 none],
+      { kind := .user, active := 0, batches := [⟨none, [0, 1], 0⟩],
+        items := [⟨0, 1, none, some ⟨1, false, 5⟩, none⟩, ⟨0, 2, none, none, none⟩] }⟩,
+     ⟨.cancel 0 none, .raised .already, [.item 0 (.err .cancelled) false, .item 1 (.val 5) true],
+      { kind := .user, active := 1, batches := [⟨some (.err .cancelled), [0, 1], 0⟩, ⟨none, [], 0⟩],
+        items := [⟨0, 1, none, some ⟨1, false, 5⟩, some (.err .cancelled)⟩, ⟨0, 2, none, none, some (.val 5)⟩] }⟩]
+    = "cancel-total@cancel" := by decide
 
 end AsynqModel.Batching
